@@ -3,7 +3,7 @@
  * error; an undamaged file never reports a checksum error; with verification off the damaged
  * file is still handled memory-safely.
  *
- *   pgdmg mode=<0|1|2> rg=<g> col=<c> page=<k> body=x<stored page bytes> crc=<stored crc>
+ *   pgdmg mode=<0 stdio|1 mmap|2 buffer|3 mmap requested but refused by the OS (fallback to stdio)> rg=<g> col=<c> page=<k> body=x<stored page bytes> crc=<stored crc>
  *         start=<first damaged bit> mask=x<xor pattern, <= 5 bytes> |
  *         clean=<rows read from the undamaged chunk, -1 on error> von=<rows read with verification, -1 = error reported>
  *         voff_rc=<exit status of a forked child that reads the damaged file without verification>
@@ -17,6 +17,7 @@
 #include "thrift/parquet_types.h"
 #include "core/arena.h"
 
+extern int h_fail_mmap;   /* io_wrap.c */
 typedef struct { size_t off, hs, len; uint32_t crc; int has_crc; int rg, col, page; } pageloc;
 
 static uint8_t* write_base(hctx* h, size_t* n, int codec) {
@@ -63,6 +64,7 @@ static long read_chunk_rows(const char* path, const uint8_t* buf, size_t n, int 
     uint8_t* exact = NULL; carquet_reader_t* rd;
     if (mode == 0) rd = carquet_reader_open(path, &ro, &err);
     else if (mode == 1) { ro.use_mmap = true; rd = carquet_reader_open(path, &ro, &err); }
+    else if (mode == 3) { ro.use_mmap = true; h_fail_mmap = 1; rd = carquet_reader_open(path, &ro, &err); h_fail_mmap = 0; }   /* mapping refused: the reader falls back to stdio and must keep verifying */
     else { exact = h_alloc(n); memcpy(exact, buf, n); rd = carquet_reader_open_buffer(exact, n, &ro, &err); }
     if (!rd) { free(exact); return -2; }
     long total = -1;
@@ -150,10 +152,37 @@ static uint8_t* write_forced(hctx* h, size_t* n, uint32_t target) {
 
 static void damage_pages(hctx* h, const uint8_t* base, size_t n, int per);
 
+/* two REQUIRED INT32 UNCOMPRESSED columns, `pages` data pages of exactly `rpp` rows each per chunk (page_size = 4 * rpp, one batch
+ * per page): all page headers and bodies of a chunk have the same size, so a reader that loses track of the page position after a
+ * failed load lands exactly on a later page (or on the next chunk) and carries on without any error */
+static uint8_t* write_equal_pages(hctx* h, size_t* n, int pages, int rpp) {
+    char path[128]; snprintf(path, sizeof path, "/tmp/verif_pg_%d_e.parquet", (int)getpid());
+    carquet_error_t err; memset(&err, 0, sizeof err);
+    carquet_schema_t* sc = carquet_schema_create(&err);
+    (void)!carquet_schema_add_column(sc, "a", CARQUET_PHYSICAL_INT32, NULL, CARQUET_REPETITION_REQUIRED, 0);
+    (void)!carquet_schema_add_column(sc, "b", CARQUET_PHYSICAL_INT32, NULL, CARQUET_REPETITION_REQUIRED, 0);
+    carquet_writer_options_t wo; carquet_writer_options_init(&wo); wo.page_size = 4 * rpp;
+    carquet_writer_t* w = carquet_writer_create(path, sc, &wo, &err);
+    int32_t* v = (int32_t*)h_alloc((size_t)rpp * 4);
+    for (int c = 0; c < 2; c++) for (int p = 0; p < pages; p++) {
+        for (int i = 0; i < rpp; i++) v[i] = (int32_t)(0x01010101u * (uint32_t)(1 + p + 7 * c) + (uint32_t)h_below(h, 250));   /* headers of equal length */
+        (void)!carquet_writer_write_batch(w, c, v, rpp, NULL, NULL);
+    }
+    free(v);
+    (void)!carquet_writer_close(w); carquet_schema_free(sc);
+    FILE* f = fopen(path, "rb"); fseek(f, 0, SEEK_END); long sz = ftell(f); fseek(f, 0, SEEK_SET);
+    uint8_t* b = h_alloc((size_t)sz); if (fread(b, 1, (size_t)sz, f) != (size_t)sz) sz = 0; fclose(f); unlink(path);
+    *n = (size_t)sz; return b;
+}
+
 static void gen_pagecrc(hctx* h) {
     /* boundary-directed: page bodies whose checksum takes the values a presence test could confuse with "absent" */
     static const uint32_t targets[] = { 0u, 0xFFFFFFFFu, 1u, 0x80000000u };
     for (int t = 0; t < 4; t++) { size_t n; uint8_t* b = write_forced(h, &n, targets[t]); damage_pages(h, b, n, 9); free(b); }
+
+    /* chunks of equally sized pages (damage in a LATER page, reads that span page boundaries) */
+    { static const int rpps[] = { 16, 40 };
+      for (int t = 0; t < 2; t++) { size_t n; uint8_t* b = write_equal_pages(h, &n, 4 + t, rpps[t]); damage_pages(h, b, n, h->thorough ? 16 : 8); free(b); } }
 
     static const int codecs[] = { 0, 1, 6, 7, 2 };
     int files = h->thorough ? 20 : 5;
@@ -173,7 +202,7 @@ static void damage_pages(hctx* h, const uint8_t* base, size_t n, int per_page) {
             size_t bits = pl[p].len * 8;
             if (h->thorough && bits <= 8 * 96) {
                 /* every single bit of the page body, in all three modes */
-                for (size_t b = 0; b < bits; b++) { uint8_t m[1] = { 1 }; one_damage(h, base, n, &pl[p], (int)(b % 3), b, m, 1); }
+                for (size_t b = 0; b < bits; b++) { uint8_t m[1] = { 1 }; one_damage(h, base, n, &pl[p], (int)(b % 4), b, m, 1); }
             }
             int per = per_page;
             for (int k = 0; k < per; k++) {
@@ -187,7 +216,7 @@ static void damage_pages(hctx* h, const uint8_t* base, size_t n, int per_page) {
                 if (bits < (size_t)w) continue;
                 size_t start = (size_t)h_below(h, bits - (size_t)w + 1);
                 if (k % 4 == 1) start = start / 8 * 8;
-                one_damage(h, base, n, &pl[p], k % 3, start, m, 5);
+                one_damage(h, base, n, &pl[p], (k + p) % 4, start, m, 5);
             }
         }
 }
